@@ -411,3 +411,17 @@ Example ex_default_node_asks_mainnet : cfg_sources ex_cfg 1 0 5 100 = [SrcUrls] 
   select_sources false false false false [] 0 0 0 100 = [SrcMainnet] /\
   select_sources false false true true [] 0 0 0 100 = [].
 Proof. vm_compute. repeat split. Qed.
+
+(* ================================================================ the archive limit is honoured, 0 included *)
+Lemma log_limits_lemma c :
+  let '(u, t) := log_limits c in
+  (forall a, c_maxarch c = Some a -> t - u = a) /\ (forall n, c_maxlog c = Some n -> u = n) /\
+  (c_maxlog c = None -> u = 10%N) /\ (c_maxarch c = None -> t = N.max u 1000) /\ (u <= t)%N.
+Proof.
+  unfold log_limits. destruct (c_maxlog c), (c_maxarch c); cbn; repeat split; intros; try discriminate;
+    try (match goal with H : Some _ = Some _ |- _ => inversion H; subst end); try reflexivity; try lia.
+Qed.
+
+Example ex_no_archives : log_limits (mkCfg "" "" "" false false [] [] false false None None false None false None None None None
+                                          (Some 0%N) (Some 3%N) "" EvmOne false "" "" None) = (3%N, 3%N).
+Proof. reflexivity. Qed.
